@@ -50,6 +50,8 @@ Step ==
        [] ev.ev = "flush.done" -> FlushDone(ev.ag)
        [] ev.ev = "reloading" -> Reloading(ev.data.integs)
        [] ev.ev = "end" -> Cancelling
+       [] ev.ev = "api.alerts" -> ApiAlerts(ev.data.alerts)
+       [] ev.ev = "api.groups" -> ApiGroups(ev.data.groups)
        [] OTHER -> Other
 
 \* violated clauses are collected (register 2) and validation goes on, so one TLC
